@@ -125,6 +125,8 @@ impl SecondaryStorage {
                 tokio::task::Builder::default()
                     .name("compactor")
                     .spawn(async move {
+                        #[cfg(risinglight_verif)]
+                        crate::verif::adopt("compactor");
                         Compactor::new(storage, rx)
                             .run()
                             .await
@@ -142,6 +144,8 @@ impl SecondaryStorage {
                 tokio::task::Builder::default()
                     .name("vacuum")
                     .spawn(async move {
+                        #[cfg(risinglight_verif)]
+                        crate::verif::adopt("vacuum");
                         storage
                             .version
                             .run(rx)
